@@ -1,6 +1,149 @@
-(** C18 — property theorems only. *)
-From V Require Import Base.Util C18.Model C18.Spec C18.Proofs.
+(** C18 — property theorems only.  Each is closed by [exact] of a lemma proved in Proofs.v / JsonProofs.v
+    and followed by [Print Assumptions]. *)
+From V Require Import Base.Util C18.Model C18.Spec C18.Corr C18.JsonProofs C18.Proofs.
+Local Open Scope N_scope.
 
-Theorem C18_placeholder : True.
-Proof. exact placeholder. Qed.
-Print Assumptions C18_placeholder.
+(** exit status 0 exactly when no stage reports anything ([clean] is a predicate on the stage answers);
+    guard: the run does not panic *)
+Theorem C18_exit_zero_iff_no_diagnostic : forall p,
+  crashed (run p) = false -> (exit_status (run p) = 0 <-> clean p = true).
+Proof. exact exit_zero_iff_clean. Qed.
+Print Assumptions C18_exit_zero_iff_no_diagnostic.
+
+(** the guard is necessary: a panic ends with status 0 on a project that is not clean, with files written *)
+Theorem C18_panic_exits_zero_refuted :
+  exists p, exit_status (run p) = 0 /\ clean p = false /\ outcome_written (run p) <> [].
+Proof. exact panic_exits_zero_refuted. Qed.
+Print Assumptions C18_panic_exits_zero_refuted.
+
+(** the same on the JSON document: exit 0 iff it has no "error" member, and then no check error *)
+Theorem C18_exit_zero_iff_no_diagnostic_json : forall p code out err w,
+  run p = Exit code out err w -> pj_format p = Json ->
+  exists t, parse_json out = Some t
+            /\ (code = 0 <-> jfield (s "error") t = None)
+            /\ (code = 0 -> json_diags t = Some []).
+Proof. exact json_exit_zero_iff_no_error. Qed.
+Print Assumptions C18_exit_zero_iff_no_diagnostic_json.
+
+(** what json-writer prints is read back by the RFC 8259 reader, for every tree *)
+Theorem C18_parse_print_json : forall t, parse_json (print_json t ++ [10]) = Some t.
+Proof. exact parse_print_json. Qed.
+Print Assumptions C18_parse_print_json.
+
+(** json / rdjson: stdout is one well-formed JSON document *)
+Theorem C18_json_wellformed : forall p code out err w,
+  run p = Exit code out err w -> pj_format p <> Human ->
+  exists t, out = print_json t ++ [10] /\ parse_json out = Some t.
+Proof. exact json_wellformed. Qed.
+Print Assumptions C18_json_wellformed.
+
+(** `check` writes no file *)
+Theorem C18_check_writes_nothing : forall p,
+  existsb (str_eqb GENERATE) (pj_commands p) = false -> outcome_written (run p) = [].
+Proof. exact check_writes_nothing. Qed.
+Print Assumptions C18_check_writes_nothing.
+
+(** `generate` writes exactly the files it reports (CliOutput.generated_files), panic or not ... *)
+Theorem C18_generate_writes_exactly_listed : forall p,
+  outcome_written (run p) = map snd (st_gen (snd (fst (run_cli_impl p)))).
+Proof. exact written_is_listed. Qed.
+Print Assumptions C18_generate_writes_exactly_listed.
+
+(** ... and in the json format those are the files the document lists *)
+Theorem C18_json_lists_written : forall p code out err w,
+  run p = Exit code out err w -> pj_format p = Json ->
+  exists t, parse_json out = Some t /\ json_listed t = Some w.
+Proof. exact json_lists_written. Qed.
+Print Assumptions C18_json_lists_written.
+
+(** nothing is written when a fault is found before generation: configuration, parse errors, failing check *)
+Theorem C18_nothing_written_on_failure : forall p,
+  pre_ok p = false \/ check_impl p <> [] -> outcome_written (run p) = [].
+Proof. exact nothing_written_on_failure. Qed.
+Print Assumptions C18_nothing_written_on_failure.
+
+(** every error check_impl answers is recorded, and the json document carries all of them in order *)
+Theorem C18_check_errors_all_reported : forall p,
+  reaches_check p -> st_check (snd (fst (run_cli_impl p))) = check_impl p.
+Proof. exact check_errors_all_reported. Qed.
+Print Assumptions C18_check_errors_all_reported.
+
+Theorem C18_json_reports_check_errors : forall p code out err w,
+  run p = Exit code out err w -> pj_format p = Json -> reaches_check p ->
+  exists t, parse_json out = Some t
+            /\ jfield (s "check") t
+               = Some (JObj [ (s "errors", JArr (map (check_error_json (store p)) (check_impl p))) ]).
+Proof. exact json_reports_check_errors. Qed.
+Print Assumptions C18_json_reports_check_errors.
+
+(** check-stage diagnostics for every offending file, not only the first *)
+Theorem C18_all_offending_files_reported : forall p code out err w o e,
+  run p = Exit code out err w -> pj_format p = Json -> reaches_check p ->
+  schema_stage_ok p -> (forall o', In o' (pj_ops p) -> op_ext o' = None /\ op_imp o' = None) ->
+  In o (pj_ops p) -> In e (op_check o) ->
+  exists t l, parse_json out = Some t
+              /\ jfield (s "check") t = Some (JObj [ (s "errors", JArr l) ])
+              /\ In (check_error_json (store p) (false, e)) l.
+Proof. exact all_offending_files_reported. Qed.
+Print Assumptions C18_all_offending_files_reported.
+
+Theorem C18_schema_errors_all_answered : forall p e,
+  pj_sch_resolve p = None -> In e (pj_sch_check p) -> In (true, e) (check_impl p).
+Proof. exact check_impl_schema_stage. Qed.
+Print Assumptions C18_schema_errors_all_answered.
+
+Theorem C18_import_errors_all_answered : forall p o e,
+  schema_stage_ok p -> (forall o', In o' (pj_ops p) -> op_ext o' = None) ->
+  In o (pj_ops p) -> op_imp o = Some e -> In (false, e) (check_impl p).
+Proof. exact check_impl_imp_stage. Qed.
+Print Assumptions C18_import_errors_all_answered.
+
+(** a located check error is rendered with the path of the file its position names *)
+Theorem C18_check_error_names_file : forall files k e f pos,
+  located_file files e = Some (f, pos) ->
+  check_error_json files (k, e)
+  = JObj [ (s "fileType", JStr (kind_str k));
+           (s "file", JObj [ (s "path", JStr (f_path f)); (s "line", JNum (u32 (p_line pos)));
+                             (s "column", JNum (u32 (p_col pos))) ]);
+           (s "message", JStr (e_msg e)) ].
+Proof. exact check_error_json_located. Qed.
+Print Assumptions C18_check_error_names_file.
+
+(** rdjson carries command errors (the first diagnostic) *)
+Theorem C18_rdjson_has_command_error : forall p out err w,
+  run p = Exit 1 out err w -> pj_format p = Rdjson ->
+  exists t msg rest, parse_json out = Some t
+                     /\ jfield (s "diagnostics") t = Some (JArr (JObj [(s "message", JStr msg)] :: rest)).
+Proof. exact rdjson_has_command_error. Qed.
+Print Assumptions C18_rdjson_has_command_error.
+
+(** command errors with a position are located in text: path:line:column first, when the line exists *)
+Theorem C18_message_for_line_located : forall path src p err additional mi,
+  existsb (fun il => N.eqb (fst il) (p_line p))
+          (firstn 5 (skipn (N.to_nat (p_line p - 2)) (enumerate_from 0 (lines src)))) = true ->
+  min_indent (firstn 5 (skipn (N.to_nat (p_line p - 2)) (enumerate_from 0 (lines src)))) = Some mi ->
+  exists rest,
+    message_for_line path src p err additional
+    = (if additional then INDENT else []) ++ path ++ [58] ++ dec (p_line p + 1) ++ [58] ++ dec (p_col p + 1) ++ [10] ++ rest.
+Proof. exact message_for_line_located. Qed.
+Print Assumptions C18_message_for_line_located.
+
+(** ... and not located at all when the position is on a line str::lines does not yield *)
+Theorem C18_message_for_line_bare : forall path src p err additional,
+  N.of_nat (length (lines src)) <= p_line p -> message_for_line path src p err additional = err.
+Proof. exact message_for_line_bare. Qed.
+Print Assumptions C18_message_for_line_bare.
+
+Theorem C18_parse_error_at_end_of_input_not_located_refuted :
+  forall f, exists out err w,
+    run (eof_witness f) = Exit 1 out err w
+    /\ locations_of (s "/w/q.graphql") out = [] /\ locations_of (s "/w/q.graphql") err = [].
+Proof. exact parse_error_at_end_of_input_not_located_refuted. Qed.
+Print Assumptions C18_parse_error_at_end_of_input_not_located_refuted.
+
+Theorem C18_generate_error_not_located_refuted :
+  forall f, exists out err w,
+    run (scalar_witness f) = Exit 1 out err w
+    /\ locations_of (s "/w/schema.graphql") out = [] /\ locations_of (s "/w/schema.graphql") err = [].
+Proof. exact generate_error_not_located_refuted. Qed.
+Print Assumptions C18_generate_error_not_located_refuted.
